@@ -370,7 +370,7 @@ def generate():
     out = ["(* GENERATED by harness/translate/savetrace.py from mysensors/persistence.py - do not edit *)",
            "From Coq Require Import List String.",
            "From PMS Require Import Base.PyStr Spec.AbstractFs.",
-           "Import ListNotations.", "Open Scope string_scope.", ""]
+           "Import ListNotations.", "Local Open Scope string_scope.", ""]
     for fmt in ("json", "pickle"):
         rows = ["mkI (%s) %s %s %s" % (op, str(g).lower(), str(t).lower(), str(w).lower()) for op, g, t, w in f["save"][fmt]]
         out.append("Definition save_prog_%s : list sinstr := [\n  %s\n]." % (fmt, ";\n  ".join(rows)))
